@@ -149,6 +149,32 @@ CHECKS_K1 = {
                 "every operator object subscribed twice) - bounded.",
         "technique": "function/closure contracts (subscribe + one arbitrary tick + continuation) and wrapper-to-engine obligations, symbolic execution of the real code, SMT",
     },
+    "C24": {
+        "text": "Function / closure contracts on the real multicasting code. ConnectableObservable.connect, from either state: not "
+                "connected - subscribes the SUBJECT to the source exactly once, marks itself connected and returns a disposable holding "
+                "that subscription, whose disposal disposes the source subscription once and marks it disconnected (the next connect "
+                "subscribes again); connected - subscribes nothing and returns the same connection. _subscribe_core subscribes the "
+                "observer to the subject and nothing else, so a subscriber sees exactly what the subject gives it from then on (what "
+                "that is, replay and current value included, is C20-C23). ref_count, from any count >= 0 and with call-outs that may "
+                "re-enter it (the count is arbitrary after each): subscribes the observer to the connectable once and before "
+                "connecting, connects iff the count was 0 when this subscription started - decided before any call-out -, and the "
+                "returned disposable unsubscribes, decrements and disconnects iff the count returned to 0, once. auto_connect(n): "
+                "connects at once iff n == 0; otherwise the k-th subscription connects iff k == n and it is not connected; every "
+                "subscription subscribes the observer to the connectable exactly once. multicast_: subject form = "
+                "ConnectableObservable(source, that subject); neither subject nor factory = ValueError; factory form, per "
+                "subscription: one subject from the factory (called with the scheduler), a connectable over it handed to the mapper, "
+                "the mapper's result subscribed with the observer and THEN connect, both held by the result. publish_ / replay_ / "
+                "publish_value_ are multicast over a new Subject() / ReplaySubject(buffer_size, window, scheduler) / "
+                "BehaviorSubject(initial_value) per application; share_ = publish followed by ref_count.",
+        "note": "Trusted: rxvc; z3; sources, subscribers and (where not constructed by the code) subjects are opaque - subscribe calls are "
+                "recorded, a subscription is an opaque disposable; Disposable / CompositeDisposable run for real (C25/C26). Not "
+                "thread-safe by design (ref_count's counter is unlocked): concurrent subscribe/unsubscribe is outside. The mapper forms "
+                "of publish_/replay_/publish_value_ are covered through multicast_'s factory form only as far as 'which factory'; "
+                "auto_connect never disconnects (by design) and resets its connected flag when any subscriber leaves - harmless "
+                "because connect() is idempotent while connected. Replay and thorough cross-check: mcastrun.py (all histories of "
+                "length <= 4 over hot and cold sources against a reference model, plus re-entrant ref_count cases) - bounded.",
+        "technique": "function/closure contracts with re-entrancy havoc at call-outs, symbolic execution of the real code, SMT",
+    },
     "C30": {
         "text": "Function contracts with a loop invariant on the real Trampoline, TrampolineScheduler and CurrentThreadScheduler. "
                 "Trampoline.run(item): when idle it enqueues exactly the item, marks the trampoline busy, enters the run loop with the "
